@@ -8,7 +8,6 @@ DEFAULT = dict(arena=256, alloc='lazy', timeout=600, mem_gb=8.0, weight=1)
 
 NOT_APPLICABLE = {
     'C07': 'purity/agreement of read calls lives in ZipArchive-bound generic methods and lazily filled caches; neither archive nor quick-xml reader can be constructed under CBMC (DESIGN 4/C07, 6)',
-    'C16': 'sheet order/names/visibility come from workbook.xml / workbook.bin via zip, content.xml, and an inline dispatch loop in xls parse_workbook; no separable kernel decides the property (DESIGN 4/C16)',
     'C19': 'XML unescaping, rich-text run concatenation, text:s/text:p handling are loops over quick_xml events read from a ZipFile; binary formats delegate to encoding_rs (DESIGN 4/C19)',
     'C20': 'password detection is Cfb::new over a whole container + directory lookup, a record in the parse_workbook dispatch loop, and an XML manifest scan: not encodable at container scale (DESIGN 4/C20)',
 }
@@ -100,10 +99,10 @@ PROPS = {
     'C12': dict(
         level_text='Bounded model checking of the real shared-string-table reader (RecordIter -> parse_sst -> read_rich_extended_string -> read_dbcs / Record::skip / continue_record / XlsEncoding::decode_to) on two-string tables whose first string is split across CONTINUE records at every kind of split point (inside the characters with a fresh compression flag, before the first character, between strings, inside rgRun, inside ExtRst) and every 8-bit/16-bit packing per segment; characters, run/ext bytes and reserved flag bits symbolic. Both strings must decode to exactly the stored characters.',
         hosts={'src/xls.rs': ['c12_xls.rs']},
-        functions=['xls::RecordIter::next', 'xls::parse_sst', 'xls::read_rich_extended_string', 'xls::read_dbcs', 'xls::Record::continue_record', 'xls::Record::skip', 'cfb::XlsEncoding::decode_to', 'cfb::XlsEncoding::high_byte'],
+        functions=['xls::parse_label', 'xls::parse_string', 'xls::parse_short_string', 'xls::RecordIter::next', 'xls::parse_sst', 'xls::read_rich_extended_string', 'xls::read_dbcs', 'xls::Record::continue_record', 'xls::Record::skip', 'cfb::XlsEncoding::decode_to', 'cfb::XlsEncoding::high_byte'],
         stubs=['encoding_rs::Encoding::decode -> k_kcommon::model_utf16_decode (UTF-16LE, ASCII code units only)'],
         bounds={'strings': 'two strings; string 1 of 1..=3 characters, string 2 of 1..=2', 'splits': '12 split/packing shapes quick, 17 thorough (listed per harness)', 'characters': 'printable ASCII, symbolic'},
-        outside=['astral and non-ASCII characters (decoder stubbed)', 'cch > 3', 'code pages other than 1200', 'sheet names / LABEL / formula-string records (same decode_to kernel, different callers)'],
+        outside=['astral and non-ASCII characters (decoder stubbed)', 'cch > 3', 'code pages other than 1200', 'formula-string (STRING record) pairing inside parse_workbook'],
         assumptions=['the CONTINUE layout follows MS-XLS 2.5.293: a flag byte only when the split falls inside the character array'],
     ),
     'C03': dict(
@@ -184,6 +183,15 @@ PROPS = {
         outside=['zip and quick-xml internals', 'decompress_stream on arbitrary bytes (3 arbitrary bytes exceed 400 s: every byte may be a copy token)', 'open_workbook_auto trial opening', 'whole-file time/space proportionality', 'vba.rs dir-stream readers, xls/xlsb parse_formula on arbitrary tokens (not admitted yet)'],
         assumptions=['declared counts in MergeCells/SST headers bounded by 3 / 2 so that the loop bound is finite'],
     ),
+    'C16': dict(
+        level_text='Bounded model checking of the one separable metadata kernel: the xls BoundSheet8 record decoder (parse_sheet_metadata) returns the exact name (8-bit and 16-bit storage), the visibility for every hsState value, the sheet kind for every dt value, the stream position, and rejects undefined codes. Sheet order, defined names and the xlsx/xlsb/ods metadata paths are XML/zip-bound or inline in a dispatch loop and are outside the claim.',
+        hosts={'src/xls.rs': ['c16_xls.rs']},
+        functions=['xls::parse_sheet_metadata', 'xls::parse_short_string'],
+        stubs=['encoding_rs::Encoding::decode -> model_utf16_decode'],
+        bounds={'record': 'lbPlyPos any u32, hsState any byte, dt any byte, two-character name (printable ASCII, symbolic) in both storage forms'},
+        outside=['sheet order and count (parse_workbook dispatch loop)', 'workbook.xml / workbook.bin / content.xml metadata (zip + quick_xml)', 'defined names, date-system flag propagation', 'names longer than 2 characters, non-ASCII names'],
+        assumptions=[],
+    ),
 }
 
 # (regex on harness name, overrides). First match wins after defaults.
@@ -193,6 +201,7 @@ RULES = [
     (r'^c18_', dict(arena=64)),
     (r'^c18_q_(vba|twin_vba)', dict(arena=256, fs_array=256)),
     (r'^c12_', dict(arena=64)),
+    (r'^c16_', dict(arena=64)),
     (r'^c04_', dict(arena=64, timeout=300)),
     (r'^c06_', dict(arena=64, timeout=400, mem_gb=8.0)),
     (r'^c06_q_cfb_chain_', dict(unwind_violation=True)),
